@@ -175,6 +175,12 @@ class Shadow:
             return ex
         if op == "clear":
             v = int(t[1]); ex.vis[v] = []; ex.drops += V[v].vis; return ex
+        if op == "lazydc":
+            v = int(t[1]); i = int(t[2]); ty = int(t[4]); src = V[v]
+            if i >= len(src.vis): ex.res = "panic"; return ex
+            if ty != src.ty: ex.out = ["N"]; return ex
+            f = Fresh(); ex.clones.append((src.vis[i], f)); ex.out = [f]; ex.held_add.append(f)
+            return ex
         if op in ("get", "at"):
             v = int(t[1]); i = int(t[2]); vis = V[v].vis
             if i < len(vis): ex.out = [vis[i]]
@@ -391,6 +397,13 @@ class Shadow:
                 pat.append(x)
             # out tokens may embed ids ("id:rem"); compare textually after binding
             obs_out = [x.rstrip("!") for x in o.out]
+            if not self.zst and len(obs_out) == len(ex.out):
+                # a value that only reaches the caller (a downcast lazy clone) is bound through the output
+                for x, t_ in zip(ex.out, obs_out):
+                    if isinstance(x, Fresh) and x.tok is None:
+                        if t_ in self.seen:
+                            self.fail("vec-semantics", "%s: expected a fresh element, observed the known id %s" % (what, t_))
+                        x.tok = t_
             exp_out = [x.tok if isinstance(x, Fresh) else x for x in ex.out]
             if not self.zst and (len(exp_out) != len(obs_out) or any(e is not None and e != o_ for e, o_ in zip(exp_out, obs_out))):
                 self.fail("vec-semantics", "%s: expected output %r, observed %r" % (what, exp_out, obs_out))
@@ -557,6 +570,12 @@ class Shadow:
             for i in new[idx:]:
                 if i not in old and i in self.seen:
                     self.fail("forget-prefix", "%s: element %s appeared in the vector from elsewhere" % (what, i))
+            # the element that was handed to the forgotten handle is gone for good: it may not stay visible
+            if op in ("pop", "remove", "swapremove") and toks[-1] == "forget" and idx < len(old) and old[idx] in new:
+                self.fail("forget-prefix", "%s: element %s was handed to the forgotten handle but is still visible in the vector"
+                          % (what, old[idx]))
+            if len(set(new)) != len(new):
+                self.fail("forget-prefix", "%s: an element appears twice after the forget: %r" % (what, new))
 
     def capacity_oracle(self, toks, o, prev_caps, prev_lens):
         """promises of reserve / reserve_exact / shrink_to(_fit) / with_capacity, stack capacities"""
